@@ -208,6 +208,11 @@ class StdioClient:
                             parse_message,
                         )
 
+                        if not isinstance(item, dict):
+                            # A batch member must be a message object; a nested
+                            # array (even an empty one) is an invalid member
+                            raise ValueError("Batch member is not a JSON object")
+
                         msg = parse_message(item)  # type: ignore[arg-type]
                         await self._route_message(msg)  # type: ignore[arg-type]
                         msg_method = getattr(msg, "method", None)
